@@ -88,7 +88,7 @@ class C04(Prop):
         n = ctx.scale(160, 1600) * budget_scale
         kinds = ["two", "two", "ttno", "ttno", "tp", "tp", "norm", "asmat"]
         return [{"seed": rng.randrange(10 ** 9), "nnodes": rng.choice([1, 2, 2, 3, 3, 4, 4, 5, 6]), "kind": kinds[j % len(kinds)],
-                 "ints": j % 5 != 0} for j in range(n)]
+                 "ints": j % 5 != 0, "share": (j % 7 == 3)} for j in range(n)]
 
     def nontrivial(self, case):
         return case["nnodes"] >= 2
@@ -101,8 +101,8 @@ class C04(Prop):
         return dict(c)
 
     # ------------------------------------------------------------------------------------------
-    def _build(self, rng, parents, open_dims, bond, cls, ints, seed):
-        drv = Driver(ttn_cls=cls, nprs=np.random.RandomState(seed % (2 ** 31)), ints=1 if ints else None)
+    def _build(self, rng, parents, open_dims, bond, cls, ints, seed, share=False):
+        drv = Driver(ttn_cls=cls, nprs=np.random.RandomState(seed % (2 ** 31)), ints=1 if ints else None, share=share)
         ops = gen_build_on(rng, parents, open_dims, bond)
         for op in ops:
             ok, err = drv.apply(op)
@@ -119,13 +119,23 @@ class C04(Prop):
         kind = case["kind"]
         ids = [f"n{i}" for i in range(n)]
         dims = {f"n{i}": phys[i] for i in range(n)}
-        ket, kops = self._build(rng, parents, [[d] for d in phys], bond, TTNS, case["ints"], case["seed"])
-        psi = util.dense_vec(ket.ttn, ids)
+        # "shared": nodes with equal tensor shapes hold the SAME ndarray object (as product-state
+        # constructors do); the network is handed to the library without any prior tensor access,
+        # so the dense references are computed on deep copies
+        share = bool(case.get("share"))
+        if share:
+            phys = [2] * n
+            bond = {i: 2 for i in range(1, n)}
+            dims = {f"n{i}": 2 for i in range(n)}
+        ket, kops = self._build(rng, parents, [[d] for d in phys], bond, TTNS, case["ints"], case["seed"], share=share)
+        psi = util.dense_vec(copy.deepcopy(ket.ttn), ids)
         ob = {"kind": kind, "kops": kops, "katoms": ket.atoms}
         if kind == "two":
             bond2 = {i: rng.choice([1, 2, 3]) for i in range(1, n)}
-            bra, bops = self._build(rng, parents, [[d] for d in phys], bond2, TTNS, case["ints"], case["seed"] + 1)
-            phi = util.dense_vec(bra.ttn, ids)
+            if share:
+                bond2 = {i: 2 for i in range(1, n)}
+            bra, bops = self._build(rng, parents, [[d] for d in phys], bond2, TTNS, case["ints"], case["seed"] + 1, share=share)
+            phi = util.dense_vec(copy.deepcopy(bra.ttn), ids)
             ob["bops"] = bops
             ob["batoms"] = bra.atoms
             ob["value"] = complex(copy.deepcopy(ket.ttn).scalar_product(copy.deepcopy(bra.ttn)))
